@@ -743,7 +743,47 @@ def rule_r12(ctx, rid="C20.R12"):
                 ctx.r.violation(rid, key_of(pf, None, "loop-timeout-unit"), "%s waits for `%s`: asyncore_loop_timeout is documented in seconds, %s" % (q, norm(e)[:50], "select() takes seconds" if unit == 1 else "poll() takes milliseconds - the seconds must be multiplied by 1000"), pf.loc(c))
 
 
-RULES = [rule_r1, rule_r2, rule_r3, rule_r4, rule_r5, rule_r6, rule_r7, rule_r9, rule_r10, rule_r11, rule_r12]
+def rule_r13(ctx, rid="C20.R13"):
+    ctx.r.rule(rid, "settings that select what is listened on are applied as documented, for every value: an AF_INET6 listener is made IPv6-only whatever the other settings are (ipv4=False must not leave a dual-stack socket), and a configured unix_socket path is removed before binding only when it IS a socket (anything else makes the start-up fail)")
+    p = ctx.p
+    f = p.func("server.BaseWSGIServer.__init__")
+    g = cfg_of(f)
+    sites = [(n, c) for n, c in find_calls(g, lambda c: isinstance(c.func, ast.Attribute) and c.func.attr == "setsockopt" and len(c.args) == 3 and "V6ONLY" in norm(c.args[1]))]
+    if not sites:
+        ctx.r.violation(rid, key_of(f, None, "v6only-missing"), "an AF_INET6 listening socket is no longer made IPv6-only: `::` accepts IPv4 clients as well, ipv4=False is not honoured and the 0.0.0.0 listener of the same port cannot bind", f.loc())
+    for (n, c) in sites:
+        extra = []
+        fam = False
+        for (t, pol) in guards_of(g, n):
+            txt = norm(t).replace(" ", "")
+            if pol and "AF_INET6" in txt and "family" in txt and isinstance(t, ast.Compare) and isinstance(t.ops[0], ast.Eq):
+                fam = True
+            elif "_sock" in txt or "sock" == txt:
+                continue
+            else:
+                extra.append(("" if pol else "not ") + norm(t))
+        v = c.args[2]
+        if not (isinstance(v, ast.Constant) and v.value in (1, True)):
+            ctx.r.violation(rid, key_of(f, None, "v6only-value"), "IPV6_V6ONLY is set to %s" % norm(v), f.loc(n.ast))
+        elif extra:
+            ctx.r.violation(rid, key_of(f, None, "v6only-conditional"), "IPV6_V6ONLY is set only when %s: for the other values an AF_INET6 listener is dual-stack - with ipv4 disabled IPv4 clients are still accepted through `::`" % " and ".join(extra), f.loc(n.ast))
+        elif not fam:
+            raise AnalysisError("the guard of the IPV6_V6ONLY call is not a family == AF_INET6 test: not decided")
+        else:
+            ctx.r.ok(rid, "every AF_INET6 socket the server creates is IPv6-only", f.loc(n.ast))
+    u = p.func("utilities.cleanup_unix_socket")
+    gu = cfg_of(u)
+    rms = [(n, c) for n, c in find_calls(gu, lambda c: dotted(c.func) in ("os.remove", "os.unlink"))]
+    if not rms:
+        raise AnalysisError("anchor vanished: the removal of the stale socket in cleanup_unix_socket")
+    for (n, c) in rms:
+        if any(pol and isinstance(t, ast.Call) and (dotted(t.func) or "").endswith("S_ISSOCK") for (t, pol) in guards_of(gu, n)):
+            ctx.r.ok(rid, "the unix_socket path is removed only when it is a socket", u.loc(n.ast))
+        else:
+            ctx.r.violation(rid, key_of(u, None, "unix-socket-remove-unguarded"), "cleanup_unix_socket removes the configured path without the test that it is a socket: a unix_socket setting that names an existing file deletes it and starts, instead of failing at start-up", u.loc(n.ast))
+
+
+RULES = [rule_r1, rule_r2, rule_r3, rule_r4, rule_r5, rule_r6, rule_r7, rule_r9, rule_r10, rule_r11, rule_r12, rule_r13]
 
 from ..selftest import M, T, V  # noqa: E402
 
